@@ -1,7 +1,9 @@
 ----------------------------- MODULE MC_Extrema -----------------------------
 (* (D) exhaustive design model of C19: every integer table with entries 0..2,   *)
 (* <= 3 reactions x <= 3 grid points (1-D and 1-D-vs-singleton-2-D), <= 2 x 2 x *)
-(* 2 (2-D), every state-energy list of <= 6 states over 0..3 (span).            *)
+(* 2 (2-D), every state-energy list of <= 6 states over 0..3 (span), every      *)
+(* sequence of <= 2 (big: 3) steps with INDEPENDENT reactant / TS / product     *)
+(* energies over 0..2 (span over all states of all steps).                      *)
 EXTENDS Extrema, TLC
 MCVals == 0..2
 MCSVals == 0..3
@@ -9,4 +11,7 @@ TsPatterns == UNION {[1..s -> BOOLEAN] : s \in 1..2}
 ASSUME BothBranches
 ASSUME SpanOfOne
 ASSUME WalkInvariant(TsPatterns)
+MCStepVals == 0..2
+ASSUME ContiguousSkipHarmless
+ASSUME SkipWrongSomewhere
 =============================================================================
